@@ -209,7 +209,7 @@ func countFails(steps []c14Step) int {
 	return n
 }
 
-var failClasses = []string{"syntax", "undefined-reference", "duplicate-type", "duplicate-member-by-extend", "extend-missing-target", "extend-kind-mismatch", "validation-rule", "schema-block-then-failure", "reader-fault", "second-extension-fails"}
+var failClasses = []string{"syntax", "undefined-reference", "duplicate-type", "duplicate-member-by-extend", "extend-missing-target", "extend-kind-mismatch", "validation-rule", "validation-rule", "validation-rule-on-existing", "schema-block-then-failure", "reader-fault", "second-extension-fails"}
 
 // touchContent writes valid content that modifies existing definitions (extends, schema block).
 func touchContent(t *rapid.T, s *hx.Schema, n int, label string) string {
@@ -224,11 +224,15 @@ func touchContent(t *rapid.T, s *hx.Schema, n int, label string) string {
 			if td.Kind == hx.KInterface {
 				continue // adding a field to an interface invalidates its implementers
 			}
-			fmt.Fprintf(&b, "extend %s %s { zq%d: Int }\n", kw, td.Name, n)
+			// (members with defaults: validation coerces values against the extended definition, and
+			// coercing an input object fills defaults in)
+			arg := []string{"", "(a: Int = 3)", "(a: [Int] = [1, 2], b: String)"}[rapid.IntRange(0, 2).Draw(t, label+td.Name+"arg")]
+			fmt.Fprintf(&b, "extend %s %s { zq%d%s: Int }\n", kw, td.Name, n, arg)
 		case hx.KEnum:
 			fmt.Fprintf(&b, "extend enum %s { ZQ%d }\n", td.Name, n)
 		case hx.KInput:
-			fmt.Fprintf(&b, "extend input %s { zq%d: Int }\n", td.Name, n)
+			dflt := []string{"", " = 5", " = 5", " = null"}[rapid.IntRange(0, 3).Draw(t, label+td.Name+"dflt")]
+			fmt.Fprintf(&b, "extend input %s { zq%d: Int%s }\n", td.Name, n, dflt)
 		case hx.KUnion:
 			fmt.Fprintf(&b, "type ZqM%d { a: Int }\nextend union %s = ZqM%d\n", n, td.Name, n)
 		}
@@ -319,6 +323,23 @@ func genCaseC14(t *rapid.T) *c14Case {
 			bad = rapid.SampledFrom([]string{"type ZqE%d {}", "union ZqU%d = Int", "type __Zq%d { a: Int }", "enum ZqEn%d { true }", "type ZqI%d implements Nope { a: Int }", "input ZqIn%d { a: Query }"}).Draw(t, lab+"val")
 			if strings.Contains(bad, "%d") {
 				bad = fmt.Sprintf(bad, n)
+			}
+		case "validation-rule-on-existing":
+			// a rule of the final pass (the one that also coerces every directive argument and default
+			// of the whole schema against the extended definitions) broken with the help of an
+			// existing definition
+			bad = rapid.SampledFrom([]string{"type ZqX%d { x: %s }\ninput ZqY%d { y: %s }", "union ZqU%d = %s | Int", "type ZqI%d implements %s { zz: Int }", "directive @zqd%d(a: %s) on OBJECT\ntype ZqE%d {}"}).Draw(t, lab+"val")
+			if strings.Count(bad, "%") == 4 {
+				bad = fmt.Sprintf(bad, n, some, n, some)
+			} else if strings.Count(bad, "%") == 3 {
+				bad = fmt.Sprintf(bad, n, some, n)
+			} else {
+				bad = fmt.Sprintf(bad, n, some)
+			}
+			// (whatever kind the existing definition has, one of the two positions is illegal for it -
+			// or, for a scalar or enum, the object is refused for implementing / the union for its members)
+			if k := s.KindOf(some); (k == hx.KScalar || k == hx.KEnum) && strings.Contains(bad, "ZqX") {
+				bad = fmt.Sprintf("type ZqE%d {}", n)
 			}
 		case "schema-block-then-failure":
 			valid = fmt.Sprintf("schema { query: %s }\n", some) + valid
